@@ -364,7 +364,7 @@ def eval_formula(t, leaf_val: Callable[[tuple], object]):
 def _atom_id(a):
     ca = canon_atom(a)
     if ca is None:
-        return ("leaf", norm(a)), False
+        return ("leaf", repr(canon(a))), False
     if ca[0] == "ne":
         return ("atom", atom_key(("eq", ca[1]))), True
     return ("atom", atom_key(ca)), False
@@ -451,7 +451,7 @@ def order_type_check(f1, f2, points: Sequence[tuple], bool_leaves: Sequence[tupl
     are skipped.  Numeric constant points keep their numeric order.
     returns (ok, n_evaluated, counterexample)"""
     points = [norm(p) for p in points]
-    bool_leaves = [norm(b) for b in bool_leaves]
+    bool_leaves = [repr(canon(b)) for b in bool_leaves]
     consts = [(i, p[1]) for i, p in enumerate(points) if is_const(p) and isinstance(p[1], (int, float))]
     n_eval = 0
     for rank in weak_orderings(len(points)):
@@ -473,7 +473,7 @@ def order_type_check(f1, f2, points: Sequence[tuple], bool_leaves: Sequence[tupl
                         raise Undecided(f"point not in the ordering: {show(a)}")
                     x, y = pv[x], pv[y]
                     return {"<": x < y, "<=": x <= y, ">": x > y, ">=": x >= y, "==": x == y, "!=": x != y}[a[1]]
-                na = norm(a)
+                na = repr(canon(a))
                 if na in bv:
                     return bv[na]
                 raise Undecided(f"leaf not assigned: {show(a)}")
@@ -486,7 +486,7 @@ def order_type_check(f1, f2, points: Sequence[tuple], bool_leaves: Sequence[tupl
             v1, v2 = eval_formula(f1, lv), eval_formula(f2, lv)
             if v1 != v2:
                 order = describe_ordering(points, rank)
-                return False, n_eval, {"ordering": order, "flags": {show(k): v for k, v in bv.items()},
+                return False, n_eval, {"ordering": order, "flags": {str(k)[:80]: v for k, v in bv.items()},
                                        "emitted": v1, "spec": v2}
     return True, n_eval, None
 
